@@ -40,16 +40,26 @@ CONSTANTS K,            \* data bytes per packet (39)
                         \*   "page": header + first packet of another page of our magazine; "stream": our page number with
                         \*   the next stream number, header + first packet; both packets carry a complete block of the other
                         \*   service.  "mag": a header of another magazine in the middle of our page (parallel mode)
-          TailAtForeign \* TRUE (as coded): the missing-tail test is made at EVERY header of our magazine, before the page filter
+          TailAtForeign, \* TRUE (as coded): the missing-tail test is made at EVERY header of our magazine, before the page filter
+          Noise,        \* UNRELATED TELETEXT PACKETS mixed into the transmission (classes, 0 = none): n in 26..31 = packet n of OUR
+                        \*   magazine (X/26 X/27 X/28 enhancement packets, M/29, and what is M/30 M/31 = 8/30, 8/31 / an IDL channel
+                        \*   when the page is in magazine 8 / another one); 100 + n, n in 1..31 = packet n of ANOTHER magazine (rows of
+                        \*   its pages, its non-data packets, other IDL channels).  None of them is a data packet X/1..X/25 of a page of
+                        \*   our magazine: the receiver must not react to them at all.  Every such packet carries, like a PFC
+                        \*   packet, a block pointer 0 and a complete block of another service (accepting any of it violates Sound)
+          NoisePos,     \* where: "all" = one behind EVERY item (header, data packet, foreign header / packet), i.e. at every
+                        \*   position between our header and the last data packet and between pages, and one in front of the first
+                        \*   header; "one" = a single packet, at every position in turn
+          NoiseFaults   \* the fault kinds noise is combined with
 
 BS == 300
 FILL == 301
 ERR == 499              \* a Hamming protected byte hit twice
 NoBP == 13              \* block pointer value "no block starts in this packet" (13 * 3 = 39)
 
-VARIABLES blocks, fault, fgn, pol, items, pos, rx, out,
+VARIABLES blocks, fault, fgn, nz, pol, items, pos, rx, out,
           aux          \* ghost, fixed by blocks: [sent |-> the blocks as they must be delivered, bsp |-> the page in which each block starts]
-vars == <<blocks, fault, fgn, pol, items, pos, rx, out, aux>>
+vars == <<blocks, fault, fgn, nz, pol, items, pos, rx, out, aux>>    \* nz = [c |-> noise class, at |-> 0: everywhere / n: behind the n-th item only]
 
 -----------------------------------------------------------------------------
 (* sender *)
@@ -105,6 +115,18 @@ Items(bl, fg) ==
                 ELSE (IF (j - 1) % NP = 0 THEN <<hd((j - 1) \div NP)>> ELSE <<>>) \o <<pk(j)>> \o mid(j) \o after(j) \o Sq(j + 1)
   IN Sq(1)
 
+\* unrelated packets (class c) mixed into the items: behind every item / behind the at-th item (at = Len + 1: in front of the first)
+NoisePk(c, p) == [t |-> "U", page |-> p, own |-> c < 100, no |-> c % 100, bp |-> 0, data |-> ForeignData]
+WithNoise(its, z) ==
+  IF z.c = 0 THEN its
+  ELSE LET RECURSIVE Mix(_)
+           Mix(j) == IF j > Len(its) THEN <<>>
+                     ELSE <<its[j]>> \o (IF z.at \in {0, j} THEN <<NoisePk(z.c, its[j].page)>> ELSE <<>>) \o Mix(j + 1)
+       IN (IF z.at \in {0, Len(its) + 1} THEN <<NoisePk(z.c, 0)>> ELSE <<>>) \o Mix(1)
+NoiseOf(its) == {[c |-> 0, at |-> 0]}
+                \cup {[c |-> c, at |-> 0] : c \in IF "all" \in NoisePos THEN Noise \ {0} ELSE {}}
+                \cup {[c |-> c, at |-> j] : c \in IF "one" \in NoisePos THEN Noise \ {0} ELSE {}, j \in 1..(Len(its) + 1)}
+
 \* where (page) each block's separator lies, for the Resume property
 RECURSIVE BsPages(_, _, _, _)
 BsPages(w, i, acc, cnt) ==
@@ -154,7 +176,8 @@ NotOurs(r) == LET r1 == IF TailAtForeign /\ TailCheck /\ r.packet <= r.np THEN R
 
 \* h: the unit of this item that is unreadable (NoHit: none), p: policy
 Feed(r, it, h, p) ==
-  IF h.u \in {"mrag0", "mrag1"} THEN (IF p = "strict" THEN Reset(r) ELSE r)     \* whose packet it was is unknown
+  IF it.t = "U" THEN r                       \* an unrelated packet (Noise) changes nothing: same deliveries, no block lost
+  ELSE IF h.u \in {"mrag0", "mrag1"} THEN (IF p = "strict" THEN Reset(r) ELSE r)     \* whose packet it was is unknown
   ELSE IF it.t = "M" THEN r                  \* header of another magazine: does not end our page
   ELSE IF h.u # "none" /\ p = "strict" THEN Reset(r)
   ELSE IF it.t \in {"X", "S"}                \* header of our magazine that is not for us
@@ -179,10 +202,11 @@ UnitsOf(it) ==
   IF it.t = "P"
   THEN {[u |-> x, i |-> 0] : x \in Units \cap {"mrag0", "mrag1", "bp"}}
        \cup {[u |-> "el", i |-> i] : i \in {j \in 1..Len(it.data) : ElClass(it.data, j) \in Units /\ (it.data[j] = FILL => FillEdge(it.data, j))}}
+  ELSE IF it.t = "U" THEN {}
   ELSE {[u |-> x, i |-> 0] : x \in Units \cap HdrUnits}
 FaultsOf(its, nb) ==
   {[k |-> "none", at |-> 0, u |-> "-", i |-> 0]}
-  \cup (IF "drop" \in Faults THEN {[k |-> "drop", at |-> j, u |-> "-", i |-> 0] : j \in 1..Len(its)} ELSE {})
+  \cup (IF "drop" \in Faults THEN {[k |-> "drop", at |-> j, u |-> "-", i |-> 0] : j \in {x \in 1..Len(its) : its[x].t # "U"}} ELSE {})
   \cup (IF nb <= UnitBlocks
         THEN UNION {{[k |-> e, at |-> j, u |-> h.u, i |-> h.i] : e \in Faults \cap {"err1", "err2"}, h \in UnitsOf(its[j])} : j \in 1..Len(its)}
         ELSE {})
@@ -190,8 +214,9 @@ FaultsOf(its, nb) ==
 Init == /\ blocks \in UNION {[1..n -> Block] : n \in 1..MaxBlocks}
         /\ fgn \in Foreign
         /\ aux = [sent |-> [k \in 1..Len(blocks) |-> SentBlockOf(blocks, k)], bsp |-> BsPages(Wire(blocks), 1, <<>>, 0)]
-        /\ items = Items(blocks, fgn)
-        /\ fault \in FaultsOf(items, Len(blocks))
+        /\ nz \in NoiseOf(Items(blocks, fgn))
+        /\ items = WithNoise(Items(blocks, fgn), nz)
+        /\ fault \in {f \in FaultsOf(items, Len(blocks)) : nz.c = 0 \/ f.k \in NoiseFaults}
         /\ pol \in (IF fault.k = "err2" THEN Policies ELSE {CHOOSE p \in Policies : TRUE})     \* the policies differ for err2 only
         /\ pos = 1 /\ rx = Rx0 /\ out = <<>>
 
@@ -204,7 +229,7 @@ StepOf(r, k, p) ==
 Step == /\ pos <= Len(items)
         /\ LET r1 == StepOf(rx, pos, pol)
            IN /\ rx' = [r1 EXCEPT !.got = <<>>] /\ out' = out \o r1.got
-        /\ pos' = pos + 1 /\ UNCHANGED <<blocks, fault, fgn, pol, items, aux>>
+        /\ pos' = pos + 1 /\ UNCHANGED <<blocks, fault, fgn, nz, pol, items, aux>>
 
 \* the same steps taken at once (the transmission is fixed in the initial state, so a behaviour is one chain):
 \* Leap is the composition of the remaining Steps; MC_Pfc_eq checks that it is (LeapAgrees)
@@ -213,7 +238,7 @@ RunAll(r, k, o, hs, p) == IF k > Len(items) THEN [rx |-> r, out |-> o, hist |-> 
                           ELSE LET r1 == StepOf(r, k, p) IN RunAll([r1 EXCEPT !.got = <<>>], k + 1, o \o r1.got, Append(hs, r1.got), p)
 Leap == /\ pos <= Len(items)
         /\ LET res == RunAll(rx, pos, out, <<>>, pol) IN rx' = res.rx /\ out' = res.out
-        /\ pos' = Len(items) + 1 /\ UNCHANGED <<blocks, fault, fgn, pol, items, aux>>
+        /\ pos' = Len(items) + 1 /\ UNCHANGED <<blocks, fault, fgn, nz, pol, items, aux>>
 LeapSpec == Init /\ [][Leap]_vars
 Next == Step
 Spec == Init /\ [][Next]_vars
@@ -228,6 +253,13 @@ Match(o, k) == IF o = <<>> THEN TRUE
                ELSE IF k > Len(blocks) THEN FALSE
                ELSE IF Head(o) = SentBlock(k) THEN Match(Tail(o), k + 1) ELSE Match(o, k + 1)
 Sound == Match(out, 1)
+\* the unrelated packets change nothing: the deliveries are those of the same transmission without them
+NoiseNeutral == (Done /\ fault.k = "none") =>
+                  LET its == Items(blocks, fgn)
+                      RECURSIVE Go(_, _, _)
+                      Go(r, k, o) == IF k > Len(its) THEN o ELSE LET r1 == Feed(r, its[k], NoHit, pol) IN Go([r1 EXCEPT !.got = <<>>], k + 1, o \o r1.got)
+                  IN out = Go(Rx0, 1, <<>>)
+ASSUME \A c \in Noise : c = 0 \/ c \in 26..31 \/ c \in 101..131
 LeapAgrees == Done => (out = RunAll(Rx0, 1, <<>>, <<>>, pol).out)
 \* without a fault every non-empty block is delivered (an empty block carries nothing; either way is accepted)
 NonEmpty(s) == SelectSeq(s, LAMBDA b : b.size > 0)
